@@ -1,4 +1,4 @@
-import Firefly.Proof.VmmFault
+import Firefly.Proof.VmmCow
 import Firefly.Gen.C06
 /-!
 # C06 — Copy-on-write faults get a private copy; the shared zero frame is never writable
@@ -79,10 +79,94 @@ theorem otherwise_panics (st : St) (addr : W) (st' : St) (h : pageFault st addr 
       hasFlags (st.rdLoc loc) fCoW = true ∧ st.free ≠ [] ∧ st.tmpFail = false :=
   pageFault_ok_inv st addr st' h
 
+/-- Full statement of `cow_private_copy`: leaf present ∧ ¬RW ∧ CoW and all upper levels present ⇒ the
+handler returns, the page maps a frame taken from the allocator at that moment with flags
+old − CoW + RW, the new frame's contents equal the old frame's, every other frame and every other
+mapping is unchanged (the temporary page ends unmapped), the page is flushed.
+
+**Proved here (`_partial`)** under the additional hypothesis that the tables of the temporary-mapping
+page already exist (they do after the first `MapTemporary`, e.g. after `PageDirectoryTable.Init` in
+`vmm.Init`), for every state, address, entry flags and frame contents: the handler returns; the
+allocator's frame `copy` is consumed; `copy` holds exactly the old frame's 512 words; the leaf entry
+becomes `cowEntry e copy` (= `e` with CoW cleared, Present|RW set, frame field `copy`); the old
+(shared) frame's contents are untouched; every word of memory other than frame `copy`, the page's
+leaf entry and the temporary page's leaf entry is unchanged, and the temporary page's entry is left
+non-present; flushes: temporary page (map), temporary page (unmap), the faulting page.  The case in
+which the temporary mapping must first create table levels is covered by the correspondence run and
+the oracle clauses `cow-*`. -/
+theorem cow_private_copy_partial {st : St} {R T1 T2 T3 U1 U2 U3 : W} (addr : W)
+    (hA : st.cr3 &&& hwMask = R) (hw : Window st R)
+    (pf : Path st.mem R (pageAddr (pageOf addr)) T1 T2 T3)
+    (pt : Path st.mem R tempVA U1 U2 U3)
+    (hpres : st.mem.rd (frameN T3) (kidx (pageAddr (pageOf addr)) 3) &&& 1#64 ≠ 0#64)
+    (hrw : hasFlags (st.mem.rd (frameN T3) (kidx (pageAddr (pageOf addr)) 3)) fRW = false)
+    (hcow : hasFlags (st.mem.rd (frameN T3) (kidx (pageAddr (pageOf addr)) 3)) fCoW = true)
+    (hold : st.mem.backed (frameN (st.mem.rd (frameN T3) (kidx (pageAddr (pageOf addr)) 3) &&& hwMask)) = true)
+    {copy : W} {rest : List W} (hf : st.free = copy :: rest) (hco : FrameOK copy)
+    (hcb : st.mem.backed copy.toNat = true) (htf : st.tmpFail = false)
+    (hz : (st.protect && copy == st.zeroFrame) = false)
+    (hc : copy.toNat ≠ frameN R ∧ copy.toNat ≠ frameN T1 ∧ copy.toNat ≠ frameN T2 ∧ copy.toNat ≠ frameN T3 ∧
+      copy.toNat ≠ frameN U1 ∧ copy.toNat ≠ frameN U2 ∧ copy.toNat ≠ frameN U3)
+    (hu : frameN U3 ≠ frameN R ∧ frameN U3 ≠ frameN U1 ∧ frameN U3 ≠ frameN U2 ∧ frameN U3 ≠ frameN T1 ∧
+      frameN U3 ≠ frameN T2 ∧ ¬(frameN U3 = frameN T3 ∧ kidx tempVA 3 = kidx (pageAddr (pageOf addr)) 3) ∧
+      frameN U3 ≠ frameN (st.mem.rd (frameN T3) (kidx (pageAddr (pageOf addr)) 3) &&& hwMask))
+    (ho : copy.toNat ≠ frameN (st.mem.rd (frameN T3) (kidx (pageAddr (pageOf addr)) 3) &&& hwMask) ∧
+      frameN T3 ≠ frameN (st.mem.rd (frameN T3) (kidx (pageAddr (pageOf addr)) 3) &&& hwMask)) :
+    let e := st.mem.rd (frameN T3) (kidx (pageAddr (pageOf addr)) 3)
+    let old := frameN (e &&& hwMask)
+    ∃ st', pageFault st addr = .ok ((), st') ∧ st'.free = rest ∧
+      (∀ i, st'.mem.rd copy.toNat i = st.mem.rd old i) ∧
+      st'.mem.rd (frameN T3) (kidx (pageAddr (pageOf addr)) 3) = cowEntry e copy ∧
+      cowEntry e copy &&& hwMask = copy <<< 12 ∧
+      (∀ i, st'.mem.rd old i = st.mem.rd old i) ∧
+      (∀ F j, F ≠ copy.toNat → ¬(F = frameN U3 ∧ j = kidx tempVA 3) →
+        ¬(F = frameN T3 ∧ j = kidx (pageAddr (pageOf addr)) 3) → st'.mem.rd F j = st.mem.rd F j) ∧
+      st'.mem.rd (frameN U3) (kidx tempVA 3) &&& 1#64 = 0#64 ∧
+      st'.flushes = st.flushes ++ [tempVA, tempVA, pageAddr (pageOf addr)] := by
+  intro e old
+  have h := pageFault_cow addr hA hw pf pt hpres hrw hcow hold hf hco hcb htf hz hc hu
+  refine ⟨_, h, rfl, ?_, ?_, ?_, ?_, ?_, ?_, rfl⟩
+  · intro i
+    have h1 : ¬(frameN T3 = copy.toNat ∧ kidx (pageAddr (pageOf addr)) 3 = i) := fun hh => hc.2.2.2.1 hh.1.symm
+    have h2 : ¬(frameN U3 = copy.toNat ∧ kidx tempVA 3 = i) := fun hh => hc.2.2.2.2.2.2 hh.1.symm
+    simp [cowState, rd_wr, rd_setFrame, h1, h2]; rfl
+  · simp [cowState, rd_wr]; rfl
+  · exact setFrame_frame _ hco
+  · intro i
+    have h1 : ¬(frameN T3 = old ∧ kidx (pageAddr (pageOf addr)) 3 = i) := fun hh => ho.2 hh.1
+    have h2 : ¬(frameN U3 = old ∧ kidx tempVA 3 = i) := fun hh => hu.2.2.2.2.2.2 hh.1
+    have h3 : ¬ copy.toNat = old := ho.1
+    simp [cowState, rd_wr, rd_setFrame, h1, h2, h3]
+  · intro F j hF hU hT
+    have h1 : ¬(frameN T3 = F ∧ kidx (pageAddr (pageOf addr)) 3 = j) := fun hh => hT ⟨hh.1.symm, hh.2.symm⟩
+    have h2 : ¬(frameN U3 = F ∧ kidx tempVA 3 = j) := fun hh => hU ⟨hh.1.symm, hh.2.symm⟩
+    have h3 : ¬ copy.toNat = F := fun hh => hF hh.symm
+    simp [cowState, rd_wr, rd_setFrame, h1, h2, h3]
+  · have h1 : ¬(frameN T3 = frameN U3 ∧ kidx (pageAddr (pageOf addr)) 3 = kidx tempVA 3) :=
+      fun hh => hu.2.2.2.2.2.1 ⟨hh.1.symm, hh.2.symm⟩
+    simp only [cowState, rd_wr, h1, if_false, and_self, if_true]
+    have : fPresent = 1#64 := by decide
+    rw [clearFlags, this, BitVec.and_assoc]
+    have : ~~~1#64 &&& 1#64 = 0#64 := by decide
+    rw [this]; simp
+
 /-- the general-protection-fault handler always panics -/
 theorem gpf_panics (st : St) : ∃ c, gpFault st = .error (.panic c) := ⟨_, gpFault_panics st⟩
 
 /-! non-vacuity: a state with the guard armed; a recoverable fault that returns -/
+
+/-- root 1 (511→1, 0→2, 510→6); 2[0]→3, 3[0]→4, 4[0] = frame 5 Present|CoW; 6[511]→7, 7[511]→8;
+frame 5 holds data; the allocator will hand out frame 9 -/
+def exCow : St :=
+  { mem := { base := 0, n := 16,
+             log := [.word 1 511 0x1003#64, .word 1 0 0x2003#64, .word 2 0 0x3003#64, .word 3 0 0x4003#64,
+                     .word 4 0 0x5201#64, .word 1 510 0x6003#64, .word 6 511 0x7003#64, .word 7 511 0x8003#64,
+                     .word 5 3 0xabcd#64] },
+    cr3 := 0x1000#64, free := [9#64] }
+
+example : (pageFault exCow 0x18#64).toOption.map (fun r => (r.2.mem.rd 4 0, r.2.mem.rd 9 3, r.2.free)) =
+    some (0x9003#64, 0xabcd#64, []) := by decide
+example : (match pageFault { exCow with free := [] } 0x18#64 with | .error (.panic 204) => true | _ => false) = true := by decide
 example : ∃ st : St, st.protect = true ∧ (3#64 &&& fRW) ≠ 0 :=
   ⟨{ mem := { base := 0, n := 0, log := [] }, cr3 := 0, protect := true }, rfl, by decide⟩
 
